@@ -1,8 +1,406 @@
-import PdsVerif.Model.Sphere
+/-
+  C12 — uncompressed NIST SPHERE audio decodes exactly.
+
+  The theorems are about `PdsVerif.Model.Sphere.decode` (literal model of `read_header` +
+  `copy_samples` of the repaired `_sphere.py`; every literal and both G.711 tables regenerated from
+  the source on every run).  Quantification: every channel count ≥ 1, sample count ≥ 1, header size
+  ≥ 1024 holding the header text, both byte orders, every read size ≥ 1 — and, in
+  `copy_loop_invariant` / `copy_samples_whole_frames`, every sequence of non-empty reads.
+  Explicit hypotheses (see harness ASSUMPTIONS): the data section does not begin with the shorten
+  magic `ajkg`; numbers have at most 4300 decimal digits (CPython's `int` limit) and the header size
+  is at most 2^26 (the model's read cap); bytes are `< 256`.
+-/
+import PdsVerif.Lemmas.SphereHeader
+
 namespace PdsVerif.C12
 open PdsVerif.Model.Sphere PdsVerif.Gen.Sphere
 
+/-! ## G.711 tables (all 256 codes, by kernel evaluation) -/
+
 theorem ulaw_table_is_g711 : ULAW2PCM = (List.range 256).map G711.ulawExpand := by decide +kernel
 theorem alaw_table_is_g711 : ALAW2PCM = (List.range 256).map G711.alawExpand := by decide +kernel
+
+theorem ulaw_table_entry (code : Nat) (h : code < 256) : ULAW2PCM[code]? = some (G711.ulawExpand code) := by
+  rw [ulaw_table_is_g711]; simp [h]
+
+theorem alaw_table_entry (code : Nat) (h : code < 256) : ALAW2PCM[code]? = some (G711.alawExpand code) := by
+  rw [alaw_table_is_g711]; simp [h]
+
+theorem g711_fits_int16 :
+    ∀ code, code < 256 → (-32768 ≤ G711.ulawExpand code ∧ G711.ulawExpand code < 32768)
+      ∧ (-32768 ≤ G711.alawExpand code ∧ G711.alawExpand code < 32768) := by decide +kernel
+
+example : ULAW2PCM[0]? = some (-32124) ∧ ULAW2PCM[255]? = some 0 ∧ ALAW2PCM[213]? = some 8 := by decide
+
+/-! ## the read loop -/
+
+/--
+  Induction over reads.  Invariant: bytes consumed so far = whole frames delivered + carried partial
+  frame (`st.left`).  For ANY sequence of non-empty reads the loop delivers exactly the first
+  `min (count - done) (avail / frame)` frames of `left ++ (everything still to be read)`.
+-/
+theorem copy_loop_invariant (p : Plan) (f : Int → Int)
+    (hframe : p.frame = p.chans * p.itemBytes) (hpos : 0 < p.frame)
+    (hitem : ∀ (c : Nat) (bs : Bytes), (∀ b ∈ bs, b < 256) →
+      mapE p.item (unpack p.itemBytes p.dec c bs) = .ok ((unpack p.itemBytes p.dec c bs).map f))
+    (rs : List Bytes) (st : St) (hne : ∀ r ∈ rs, r ≠ [])
+    (hb : ∀ b ∈ st.left ++ rs.flatten, b < 256)
+    (hl : st.done < p.count → st.left.length < p.frame)
+    (hm : st.done = 0 → (st.left ++ rs.flatten).take SHN_MAGIC_LEN ≠ SHN_MAGIC) :
+    ∃ st', copyLoop p rs st = .ok st' ∧
+      st'.done = st.done + framesLeft p st (st.left ++ rs.flatten).length ∧
+      st'.out = st.out ++
+        (unpack p.itemBytes p.dec (framesLeft p st (st.left ++ rs.flatten).length * p.chans)
+          (st.left ++ rs.flatten)).map f :=
+  copyLoop_spec p f hframe hpos hitem rs st hne hb hl hm
+
+/-- `copy_samples` for any sequence of non-empty reads: shape, samples and warning flag. -/
+theorem copy_samples_whole_frames (h : Header) (dtype : Option DT) (p : Plan) (f : Int → Int)
+    (hp : mkPlan h dtype = .ok p)
+    (hframe : p.frame = p.chans * p.itemBytes) (hpos : 0 < p.frame)
+    (hitem : ∀ (c : Nat) (bs : Bytes), (∀ b ∈ bs, b < 256) →
+      mapE p.item (unpack p.itemBytes p.dec c bs) = .ok ((unpack p.itemBytes p.dec c bs).map f))
+    (rs : List Bytes) (hne : ∀ r ∈ rs, r ≠ [])
+    (hb : ∀ b ∈ rs.flatten, b < 256)
+    (hm : rs.flatten.take SHN_MAGIC_LEN ≠ SHN_MAGIC) :
+    copySamplesReads h dtype rs = .ok
+      { dtype := p.dtype
+        shape := shapeOf p.chans (delivered p rs.flatten.length)
+        samples := (unpack p.itemBytes p.dec (delivered p rs.flatten.length * p.chans) rs.flatten).map f
+        warn := delivered p rs.flatten.length != p.count } :=
+  copySamplesReads_spec h dtype p f hp hframe hpos hitem rs hne hb hm
+
+/-! ## header -/
+
+/-- the header written by `encode` (any padding, any size ≥ 1024 that holds the text) parses to its six fields
+    and leaves the stream at the first data byte -/
+theorem canonical_header_parses (s : Spec) (count : Nat) (pad data : Bytes)
+    (hchans : 1 ≤ s.chans) (hcount : 1 ≤ count) (hrate : 1 ≤ s.rate)
+    (hbc : s.chans < 10 ^ maxStrDigits) (hbn : count < 10 ^ maxStrDigits) (hbr : s.rate < 10 ^ maxStrDigits)
+    (hsize : (headerText s count).length + pad.length = s.hdrSize)
+    (h1024 : 1024 ≤ s.hdrSize) (hcap : s.hdrSize ≤ 2 ^ 26) :
+    readHeader (headerText s count ++ pad ++ data) = .ok (hdrOf s count, data) :=
+  readHeader_canonical s count pad data hchans hcount hrate hbc hbn hbr hsize h1024 hcap
+
+/-! ## 16-bit PCM -/
+
+/--
+  Core statement for PCM, for ANY file whose header parses to the fields of `s` (extra fields, other
+  order, other padding ...): the first `n` bytes of the payload are present (`n` ≥ its length: all of
+  it); exactly the whole frames among them come back, with the warning iff fewer than promised.
+-/
+theorem pcm_frames_of_header (R : Nat) (hR : 0 < R) (file : Bytes) (h : Header) (data : Bytes)
+    (s : Spec) (count : Nat) (items : List Int) (n : Nat)
+    (hh : readHeader file = .ok (h, data)) (hm : Matches h s count) (hc : s.coding = .pcm)
+    (hchans : 1 ≤ s.chans) (hcount : 1 ≤ count)
+    (hlen : items.length = count * s.chans) (hrange : ∀ x ∈ items, -32768 ≤ x ∧ x < 32768)
+    (hdata : data = (payload s items).take n)
+    (hmagic : data.take 4 ≠ [97, 106, 107, 103]) :
+    decode R none file = .ok
+      { dtype := .i16
+        shape := shapeOf s.chans (framesIn count s.chans 2 n (items.length * 2))
+        samples := items.take (framesIn count s.chans 2 n (items.length * 2) * s.chans)
+        warn := framesIn count s.chans 2 n (items.length * 2) != count } := by
+  obtain ⟨p, hp, hframe, hch, hcnt, hk, hdec, hitem, hdt⟩ := plan_pcm h s count hm hc hchans hcount
+  have hnb : s.nbytes = 2 := by simp [Spec.nbytes, hc]
+  have := frames_present_core R hR none file h data hh p (wrapS 16) hp (by rw [hframe, hch, hk])
+    (by rw [hframe]; omega) (hitem_cast p _ hitem) (encItem 2 s.be)
+    (by intro x; rw [hk]; exact length_encItem 2 s.be x) (fun x => encItem_lt 2 s.be x)
+    items (by intro x hx; rw [hdec]; exact decItem_encItem_i16 s.be x (hrange x hx))
+    (by rw [hcnt, hch]; exact hlen) n (by rw [hdata, payload, hnb]) hmagic
+  rw [this, hdt, hch, hcnt, hk, hframe]
+  simp only [framesIn]
+  rw [map_wrapS16_id _ (fun x hx => hrange x (List.mem_of_mem_take hx))]
+
+/--
+  `pcm_roundtrip`: every channel count ≥ 1, sample count ≥ 1, byte order, header size ≥ 1024 (holding
+  the text), padding, read size ≥ 1: the file written by `encode` decodes to exactly the stored samples,
+  int16, shape `(count,)` for mono and `(count, chans)` otherwise, without a warning.
+-/
+theorem pcm_roundtrip (R : Nat) (hR : 0 < R) (s : Spec) (count : Nat) (pad : Bytes) (items : List Int)
+    (hc : s.coding = .pcm)
+    (hchans : 1 ≤ s.chans) (hcount : 1 ≤ count) (hrate : 1 ≤ s.rate)
+    (hbc : s.chans < 10 ^ maxStrDigits) (hbn : count < 10 ^ maxStrDigits) (hbr : s.rate < 10 ^ maxStrDigits)
+    (hsize : (headerText s count).length + pad.length = s.hdrSize)
+    (h1024 : 1024 ≤ s.hdrSize) (hcap : s.hdrSize ≤ 2 ^ 26)
+    (hlen : items.length = count * s.chans) (hrange : ∀ x ∈ items, -32768 ≤ x ∧ x < 32768)
+    (hmagic : (payload s items).take 4 ≠ [97, 106, 107, 103]) :
+    decode R none (encode s count pad items) = .ok
+      { dtype := .i16, shape := shapeOf s.chans count, samples := items, warn := false } := by
+  have hh := readHeader_canonical s count pad (payload s items) hchans hcount hrate hbc hbn hbr hsize h1024 hcap
+  have hpl : (payload s items).length = count * s.chans * 2 := by
+    rw [length_payload, hlen]; simp [Spec.nbytes, hc]
+  have := pcm_frames_of_header R hR _ _ _ s count items (count * s.chans * 2) hh (matches_hdrOf s count) hc hchans hcount
+    hlen hrange (by rw [← hpl, List.take_length]) hmagic
+  rw [encode, this, hlen, framesIn_full count s.chans 2 hchans (by decide), ← hlen, List.take_length]
+  simp
+
+/--
+  `short_data` (PCM, mono and multi-channel alike): only the first `k` bytes of the data are there
+  (`k` less than promised): the warning is raised and exactly the `k / (chans*2)` whole frames
+  present are returned — nothing beyond them.
+-/
+theorem short_data_pcm (R : Nat) (hR : 0 < R) (s : Spec) (count : Nat) (pad : Bytes) (items : List Int) (k : Nat)
+    (hc : s.coding = .pcm)
+    (hchans : 1 ≤ s.chans) (hcount : 1 ≤ count) (hrate : 1 ≤ s.rate)
+    (hbc : s.chans < 10 ^ maxStrDigits) (hbn : count < 10 ^ maxStrDigits) (hbr : s.rate < 10 ^ maxStrDigits)
+    (hsize : (headerText s count).length + pad.length = s.hdrSize)
+    (h1024 : 1024 ≤ s.hdrSize) (hcap : s.hdrSize ≤ 2 ^ 26)
+    (hlen : items.length = count * s.chans) (hrange : ∀ x ∈ items, -32768 ≤ x ∧ x < 32768)
+    (hk : k < count * s.chans * 2)
+    (hmagic : ((payload s items).take k).take 4 ≠ [97, 106, 107, 103]) :
+    decode R none (headerText s count ++ pad ++ (payload s items).take k) = .ok
+      { dtype := .i16
+        shape := shapeOf s.chans (k / (s.chans * 2))
+        samples := items.take (k / (s.chans * 2) * s.chans)
+        warn := true } := by
+  have hh := readHeader_canonical s count pad ((payload s items).take k) hchans hcount hrate hbc hbn hbr hsize h1024 hcap
+  have := pcm_frames_of_header R hR _ _ _ s count items k hh (matches_hdrOf s count) hc hchans hcount
+    hlen hrange rfl hmagic
+  obtain ⟨e, hlt⟩ := framesIn_short count s.chans 2 k hk
+  rw [this, hlen, e]
+  have : (k / (s.chans * 2) != count) = true := bne_iff_ne.mpr (Nat.ne_of_lt hlt)
+  rw [this]
+
+/-! ## mu-law / A-law -/
+
+theorem tableFn_expand (s : Spec) (hc : s.coding ≠ .pcm) (x : Int) (hx : 0 ≤ x ∧ x < 256) :
+    wrapS 16 (tableFn (if s.coding = .alaw then ALAW2PCM else ULAW2PCM) x) = expand s.coding x := by
+  have hlt : x.toNat < 256 := by omega
+  have hfit := g711_fits_int16 x.toNat hlt
+  cases hcd : s.coding with
+  | pcm => exact absurd hcd hc
+  | ulaw =>
+    simp only [reduceCtorEq, if_false, expand, tableFn, List.getD_eq_getElem?_getD, ulaw_table_entry _ hlt,
+      Option.getD_some, wrapS]
+    omega
+  | alaw =>
+    simp only [if_true, expand, tableFn, List.getD_eq_getElem?_getD, alaw_table_entry _ hlt,
+      Option.getD_some, wrapS]
+    omega
+
+theorem g711_frames_of_header (R : Nat) (hR : 0 < R) (file : Bytes) (h : Header) (data : Bytes)
+    (s : Spec) (count : Nat) (items : List Int) (n : Nat)
+    (hh : readHeader file = .ok (h, data)) (hm : Matches h s count) (hc : s.coding ≠ .pcm)
+    (hchans : 1 ≤ s.chans) (hcount : 1 ≤ count)
+    (hlen : items.length = count * s.chans) (hrange : ∀ x ∈ items, 0 ≤ x ∧ x < 256)
+    (hdata : data = (payload s items).take n)
+    (hmagic : data.take 4 ≠ [97, 106, 107, 103]) :
+    decode R none file = .ok
+      { dtype := .i16
+        shape := shapeOf s.chans (framesIn count s.chans 1 n (items.length * 1))
+        samples := (items.take (framesIn count s.chans 1 n (items.length * 1) * s.chans)).map (expand s.coding)
+        warn := framesIn count s.chans 1 n (items.length * 1) != count } := by
+  obtain ⟨p, hp, hframe, hch, hcnt, hk, hdec, hitem, hdt⟩ := plan_g711_expand h s count hm hc hchans hcount
+  have hnb : s.nbytes = 1 := by cases hcd : s.coding <;> simp_all [Spec.nbytes]
+  have htl : (if s.coding = .alaw then ALAW2PCM else ULAW2PCM).length = 256 := by split <;> decide +kernel
+  have := frames_present_core R hR none file h data hh p _ hp (by rw [hframe, hch, hk])
+    (by rw [hframe]; omega) (hitem_table p _ _ htl hk hdec hitem) (encItem 1 s.be)
+    (by intro x; rw [hk]; exact length_encItem 1 s.be x) (fun x => encItem_lt 1 s.be x)
+    items (by intro x hx; rw [hdec]; exact decItem_encItem_u8_any _ _ x (hrange x hx))
+    (by rw [hcnt, hch]; exact hlen) n (by rw [hdata, payload, hnb]) hmagic
+  rw [this, hdt, hch, hcnt, hk, hframe]
+  simp only [framesIn]
+  have hmap : ∀ (l : List Int), (∀ x ∈ l, x ∈ items) →
+      l.map (fun x => wrapS 16 (tableFn (if s.coding = .alaw then ALAW2PCM else ULAW2PCM) x))
+        = l.map (expand s.coding) :=
+    fun l hl => List.map_congr_left (fun x hx => tableFn_expand s hc x (hrange x (hl x hx)))
+  rw [hmap _ (fun x hx => List.mem_of_mem_take hx)]
+
+/-- `g711_roundtrip`: mu-law / A-law files decode to the ITU-T G.711 expansion of the stored codes, int16 -/
+theorem g711_roundtrip (R : Nat) (hR : 0 < R) (s : Spec) (count : Nat) (pad : Bytes) (items : List Int)
+    (hc : s.coding ≠ .pcm)
+    (hchans : 1 ≤ s.chans) (hcount : 1 ≤ count) (hrate : 1 ≤ s.rate)
+    (hbc : s.chans < 10 ^ maxStrDigits) (hbn : count < 10 ^ maxStrDigits) (hbr : s.rate < 10 ^ maxStrDigits)
+    (hsize : (headerText s count).length + pad.length = s.hdrSize)
+    (h1024 : 1024 ≤ s.hdrSize) (hcap : s.hdrSize ≤ 2 ^ 26)
+    (hlen : items.length = count * s.chans) (hrange : ∀ x ∈ items, 0 ≤ x ∧ x < 256)
+    (hmagic : (payload s items).take 4 ≠ [97, 106, 107, 103]) :
+    decode R none (encode s count pad items) = .ok
+      { dtype := .i16, shape := shapeOf s.chans count, samples := items.map (expand s.coding), warn := false } := by
+  have hh := readHeader_canonical s count pad (payload s items) hchans hcount hrate hbc hbn hbr hsize h1024 hcap
+  have hnb : s.nbytes = 1 := by cases hcd : s.coding <;> simp_all [Spec.nbytes]
+  have hpl : (payload s items).length = count * s.chans * 1 := by rw [length_payload, hlen, hnb]
+  have := g711_frames_of_header R hR _ _ _ s count items (count * s.chans * 1) hh (matches_hdrOf s count) hc hchans hcount
+    hlen hrange (by rw [← hpl, List.take_length]) hmagic
+  rw [encode, this, hlen, framesIn_full count s.chans 1 hchans (by decide), ← hlen, List.take_length]
+  simp
+
+/-- `short_data` for mu-law / A-law -/
+theorem short_data_g711 (R : Nat) (hR : 0 < R) (s : Spec) (count : Nat) (pad : Bytes) (items : List Int) (k : Nat)
+    (hc : s.coding ≠ .pcm)
+    (hchans : 1 ≤ s.chans) (hcount : 1 ≤ count) (hrate : 1 ≤ s.rate)
+    (hbc : s.chans < 10 ^ maxStrDigits) (hbn : count < 10 ^ maxStrDigits) (hbr : s.rate < 10 ^ maxStrDigits)
+    (hsize : (headerText s count).length + pad.length = s.hdrSize)
+    (h1024 : 1024 ≤ s.hdrSize) (hcap : s.hdrSize ≤ 2 ^ 26)
+    (hlen : items.length = count * s.chans) (hrange : ∀ x ∈ items, 0 ≤ x ∧ x < 256)
+    (hk : k < count * s.chans * 1)
+    (hmagic : ((payload s items).take k).take 4 ≠ [97, 106, 107, 103]) :
+    decode R none (headerText s count ++ pad ++ (payload s items).take k) = .ok
+      { dtype := .i16
+        shape := shapeOf s.chans (k / (s.chans * 1))
+        samples := (items.take (k / (s.chans * 1) * s.chans)).map (expand s.coding)
+        warn := true } := by
+  have hh := readHeader_canonical s count pad ((payload s items).take k) hchans hcount hrate hbc hbn hbr hsize h1024 hcap
+  have := g711_frames_of_header R hR _ _ _ s count items k hh (matches_hdrOf s count) hc hchans hcount
+    hlen hrange rfl hmagic
+  obtain ⟨e, hlt⟩ := framesIn_short count s.chans 1 k hk
+  rw [this, hlen, e]
+  have : (k / (s.chans * 1) != count) = true := bne_iff_ne.mpr (Nat.ne_of_lt hlt)
+  rw [this]
+
+/-- a 1-byte dtype (uint8 / int8) is requested: the raw codes come back (as that type), not expanded -/
+theorem g711_raw_roundtrip (R : Nat) (hR : 0 < R) (s : Spec) (count : Nat) (pad : Bytes) (items : List Int)
+    (dt : DT) (hdt : dt = .u8 ∨ dt = .i8)
+    (hc : s.coding ≠ .pcm)
+    (hchans : 1 ≤ s.chans) (hcount : 1 ≤ count) (hrate : 1 ≤ s.rate)
+    (hbc : s.chans < 10 ^ maxStrDigits) (hbn : count < 10 ^ maxStrDigits) (hbr : s.rate < 10 ^ maxStrDigits)
+    (hsize : (headerText s count).length + pad.length = s.hdrSize)
+    (h1024 : 1024 ≤ s.hdrSize) (hcap : s.hdrSize ≤ 2 ^ 26)
+    (hlen : items.length = count * s.chans) (hrange : ∀ x ∈ items, 0 ≤ x ∧ x < 256)
+    (hmagic : (payload s items).take 4 ≠ [97, 106, 107, 103]) :
+    decode R (some dt) (encode s count pad items) = .ok
+      { dtype := dt, shape := shapeOf s.chans count, samples := items.map dt.cast, warn := false } := by
+  have hh := readHeader_canonical s count pad (payload s items) hchans hcount hrate hbc hbn hbr hsize h1024 hcap
+  obtain ⟨p, hp, hframe, hch, hcnt, hk, hdec, hitem, hpdt⟩ :=
+    plan_g711_raw (hdrOf s count) s count (matches_hdrOf s count) hc hchans hcount dt hdt
+  have hnb : s.nbytes = 1 := by cases hcd : s.coding <;> simp_all [Spec.nbytes]
+  have hpl : (payload s items).length = count * s.chans * 1 := by rw [length_payload, hlen, hnb]
+  have := frames_present_core R hR (some dt) _ _ _ hh p _ hp (by rw [hframe, hch, hk])
+    (by rw [hframe]; omega) (hitem_cast p _ hitem) (encItem 1 s.be)
+    (by intro x; rw [hk]; exact length_encItem 1 s.be x) (fun x => encItem_lt 1 s.be x)
+    items (by intro x hx; rw [hdec]; exact decItem_encItem_u8_any _ _ x (hrange x hx))
+    (by rw [hcnt, hch]; exact hlen) (count * s.chans * 1)
+    (by
+      have e : payload s items = items.flatMap (encItem 1 s.be) := by rw [payload, hnb]
+      rw [← e, ← hpl, List.take_length])
+    (by exact hmagic)
+  rw [encode, this, hpdt, hch, hcnt, hk, hframe, hlen]
+  have e := framesIn_full count s.chans 1 hchans (by decide)
+  unfold framesIn at e
+  rw [e, ← hlen, List.take_length]
+  simp
+
+/-- for `uint8` the returned values are the stored codes themselves -/
+theorem g711_raw_u8_is_identity (items : List Int) (hrange : ∀ x ∈ items, 0 ≤ x ∧ x < 256) :
+    items.map DT.u8.cast = items := map_wrapU8_id items hrange
+
+/-! ## bad headers -/
+
+/-- `bad_header`: a file that does not start with a NIST_1A header of at least 1024 bytes gives IOError
+    (whatever the read size and requested dtype) -/
+theorem bad_header (R : Nat) (dt : Option DT) (file : Bytes) (h : ¬ StartsWithNistHeader file) :
+    decode R dt file = .error (.io .header) := by
+  have hrn : readN (HDR_READ : Int) file = (file.take 1024, file.drop 1024) := by simp [readN, HDR_READ]
+  unfold decode readHeader
+  simp only [hrn]
+  by_cases h1 : (file.take 1024).length ≠ HDR_LEN ∨ (file.take 1024).take MAGIC_LEN ≠ MAGIC
+  · simp only [h1, if_true]
+  · simp only [h1, if_false]
+    have hlen : 1024 ≤ file.length := by
+      have : (file.take 1024).length = 1024 := by
+        have := (not_or.mp h1).1; simp only [HDR_LEN, ne_eq, Decidable.not_not] at this; exact this
+      rw [List.length_take] at this; omega
+    have hmg : file.take 7 = kNIST := by
+      have := (not_or.mp h1).2
+      simp only [ne_eq, Decidable.not_not, List.take_take, MAGIC_LEN] at this
+      rw [show min 7 1024 = 7 by decide] at this
+      rw [this]; decide
+    cases hs : (splitOn LINE_SEP (file.take 1024))[SIZE_LINE_INDEX]? with
+    | none => rfl
+    | some line =>
+      simp only
+      cases hp : pyIntBytes line with
+      | none => rfl
+      | some n =>
+        simp only
+        by_cases hn : n < HDR_MIN
+        · simp only [hn, if_true]
+        · exfalso
+          apply h
+          refine ⟨hlen, hmg, line, n, hs, hp, ?_⟩
+          simp only [HDR_MIN] at hn; omega
+
+theorem bad_header_short (R : Nat) (dt : Option DT) (file : Bytes) (h : file.length < 1024) :
+    decode R dt file = .error (.io .header) :=
+  bad_header R dt file (fun hw => by have := hw.1; omega)
+
+theorem bad_header_magic (R : Nat) (dt : Option DT) (file : Bytes) (h : file.take 7 ≠ kNIST) :
+    decode R dt file = .error (.io .header) :=
+  bad_header R dt file (fun hw => h hw.2.1)
+
+/-- missing second line, a second line `int()` cannot read, or a declared size below 1024 -/
+theorem bad_header_size_line (R : Nat) (dt : Option DT) (file : Bytes)
+    (h : ∀ line, (splitOn 10 (file.take 1024))[1]? = some line →
+      pyIntBytes line = none ∨ ∃ n, pyIntBytes line = some n ∧ n < 1024) :
+    decode R dt file = .error (.io .header) := by
+  apply bad_header
+  rintro ⟨_, _, line, n, hl, hp, hn⟩
+  rcases h line hl with h' | ⟨m, hm, hlt⟩
+  · rw [h'] at hp; exact absurd hp (by simp)
+  · rw [hm] at hp; injection hp with e; omega
+
+/-! ## concrete instances: the hypotheses are satisfiable, and the model computes what the theorems say
+
+  3 channels of big-endian PCM, 5 frames (30 data bytes), header padded to 1100 bytes, read size 8:
+  frames of 6 bytes straddle every 8-byte read.
+-/
+
+def ex3 : Spec := { coding := .pcm, be := true, chans := 3, rate := 16000, hdrSize := 1100 }
+def ex3Items : List Int := [1, -2, 300, -32768, 32767, 0, 7, 8, 9, -10, -11, -12, 256, -256, 255]
+def ex3Pad : Bytes := List.replicate (1100 - (headerText ex3 5).length) 32
+
+example : decode 8 none (encode ex3 5 ex3Pad ex3Items)
+    = .ok { dtype := .i16, shape := [5, 3], samples := ex3Items, warn := false } :=
+  pcm_roundtrip 8 (by decide) ex3 5 ex3Pad ex3Items rfl (by decide) (by decide) (by decide)
+    (Nat.lt_of_lt_of_le (by decide : ex3.chans < 10 ^ 1) (Nat.pow_le_pow_right (by decide) (by decide)))
+    (Nat.lt_of_lt_of_le (by decide : 5 < 10 ^ 1) (Nat.pow_le_pow_right (by decide) (by decide)))
+    (Nat.lt_of_lt_of_le (by decide : ex3.rate < 10 ^ 5) (Nat.pow_le_pow_right (by decide) (by decide)))
+    (by decide +kernel) (by decide) (by decide) (by decide) (by decide) (by decide +kernel)
+
+/-- the same by plain evaluation of the model (no theorem involved) -/
+example : decode 8 none (encode ex3 5 ex3Pad ex3Items)
+    = .ok { dtype := .i16, shape := [5, 3], samples := ex3Items, warn := false } := by decide +kernel
+
+/-- truncated after 20 of the 30 data bytes: warning, the 3 whole frames present, nothing else -/
+example : decode 8 none (headerText ex3 5 ++ ex3Pad ++ (payload ex3 ex3Items).take 20)
+    = .ok { dtype := .i16, shape := [3, 3], samples := ex3Items.take 9, warn := true } :=
+  short_data_pcm 8 (by decide) ex3 5 ex3Pad ex3Items 20 rfl (by decide) (by decide) (by decide)
+    (Nat.lt_of_lt_of_le (by decide : ex3.chans < 10 ^ 1) (Nat.pow_le_pow_right (by decide) (by decide)))
+    (Nat.lt_of_lt_of_le (by decide : 5 < 10 ^ 1) (Nat.pow_le_pow_right (by decide) (by decide)))
+    (Nat.lt_of_lt_of_le (by decide : ex3.rate < 10 ^ 5) (Nat.pow_le_pow_right (by decide) (by decide)))
+    (by decide +kernel) (by decide) (by decide) (by decide) (by decide) (by decide) (by decide +kernel)
+
+/-- truncated MONO file (defect 14 of the unrepaired reader): only the samples present -/
+def ex1 : Spec := { coding := .pcm, be := false, chans := 1, rate := 8000, hdrSize := 1024 }
+def ex1Pad : Bytes := List.replicate (1024 - (headerText ex1 6).length) 32
+
+example : decode 4 none (headerText ex1 6 ++ ex1Pad ++ (payload ex1 [10, -20, 30, -40, 50, -60]).take 7)
+    = .ok { dtype := .i16, shape := [3], samples := [10, -20, 30], warn := true } := by decide +kernel
+
+/-- mu-law, 2 channels, read size 3; default dtype expands, `uint8` returns the codes -/
+def exU : Spec := { coding := .ulaw, be := false, chans := 2, rate := 8000, hdrSize := 2048 }
+def exUPad : Bytes := List.replicate (2048 - (headerText exU 3).length) 0
+
+example : decode 3 none (encode exU 3 exUPad [0, 255, 127, 128, 1, 254])
+    = .ok { dtype := .i16, shape := [3, 2], samples := [-32124, 0, 0, 32124, -31100, 8], warn := false } :=
+  g711_roundtrip 3 (by decide) exU 3 exUPad [0, 255, 127, 128, 1, 254] (by decide) (by decide) (by decide) (by decide)
+    (Nat.lt_of_lt_of_le (by decide : exU.chans < 10 ^ 1) (Nat.pow_le_pow_right (by decide) (by decide)))
+    (Nat.lt_of_lt_of_le (by decide : 3 < 10 ^ 1) (Nat.pow_le_pow_right (by decide) (by decide)))
+    (Nat.lt_of_lt_of_le (by decide : exU.rate < 10 ^ 5) (Nat.pow_le_pow_right (by decide) (by decide)))
+    (by decide +kernel) (by decide) (by decide) (by decide) (by decide) (by decide +kernel)
+
+example : decode 3 (some .u8) (encode exU 3 exUPad [0, 255, 127, 128, 1, 254])
+    = .ok { dtype := .u8, shape := [3, 2], samples := [0, 255, 127, 128, 1, 254], warn := false } := by decide +kernel
+
+/-- bad headers -/
+example : decode 16384 none (kNIST ++ [10] ++ List.replicate 900 32) = .error (.io .header) :=
+  bad_header_short _ _ _ (by decide +kernel)
+
+example : ¬ StartsWithNistHeader ([88] ++ (encode ex3 5 ex3Pad ex3Items).drop 1) :=
+  fun h => absurd h.2.1 (by decide +kernel)
+
+example : StartsWithNistHeader (encode ex3 5 ex3Pad ex3Items) :=
+  ⟨by decide +kernel, by decide +kernel, padLeft 7 (dec 1100), 1100, by decide +kernel, by decide +kernel, by decide⟩
 
 end PdsVerif.C12
